@@ -4,7 +4,7 @@
      op     = (ssub nPARENT PLUGS) | (sroute sKIND nROUTER nHID zHSTAT PLUGS)
             | (sunk sKIND nHID zHSTAT PLUGS) | (sleft PLUGS) | (sright PLUGS)
      plugin = (nID (nSTAGE ...) (nREFUSINGSTAGE ...))     kind = scall | spush
-     msg    = (sKIND nHID)      probe = (nOLDCAP nNEWLEN)
+     msg    = (sKIND nHID sFAULT)  (fault = snone | snopool | sbadreply)   probe = (nOLDCAP nNEWLEN)
    observations = ((MSGOBS ...) (nCAP ...))
      msgobs = (sWRITTEN CLITRACE CLIPRH SRVPRH SRVTRACE (nHID ...) zSTATUS)          *)
 From Coq Require Import Strings.String Strings.Byte.
@@ -80,18 +80,24 @@ Fixpoint ops_of (l : list val) : option (list op) :=
               end
   end.
 
-Definition msg_of (v : val) : option msg :=
+Definition fault_of (v : val) : option fault :=
+  if sym_eqb v "none" then Some FNone
+  else if sym_eqb v "nopool" then Some FNoPool
+  else if sym_eqb v "badreply" then Some FBadReply
+  else None.
+
+Definition msg_of (v : val) : option (fault * msg) :=
   match v with
-  | VL [k; VN hid] =>
-      match kind_of k with
-      | Some KCall => Some (MCall hid)
-      | Some KPush => Some (MPush hid)
-      | None => None
+  | VL [k; VN hid; f] =>
+      match kind_of k, fault_of f with
+      | Some KCall, Some f => Some (f, MCall hid)
+      | Some KPush, Some f => Some (f, MPush hid)
+      | _, _ => None
       end
   | _ => None
   end.
 
-Fixpoint msgs_of (l : list val) : option (list msg) :=
+Fixpoint msgs_of (l : list val) : option (list (fault * msg)) :=
   match l with
   | [] => Some []
   | v :: r => match msg_of v, msgs_of r with
@@ -183,7 +189,7 @@ Definition run (inp : val) : option val :=
       | Some sops, Some cops, Some ms =>
           match Plugins.run sops, Plugins.run cops with
           | Some srv, Some cli =>
-              Some (VL [VL (map (fun m => res_val (exchange cli srv m)) ms); VL (map probe_val probes)])
+              Some (VL [VL (map (fun fm => res_val (exchange_f (fst fm) cli srv (snd fm))) ms); VL (map probe_val probes)])
           | _, _ => None
           end
       | _, _, _ => None
